@@ -21,7 +21,7 @@ def run(ctx):
 
 
 META = {
-    "text": "TLC checks EioSession.tla (poll queue, pending and in-flight polls, candidate probe, both swaps under their write locks, asynchronous NOOPs, re-send of queued packets; heartbeat PINGs and PONGs travelling in the same streams; 2-3 messages and 1-2 heartbeats each way, one candidate failure, thorough 3/4 messages and 3 heartbeats = 4.0 M distinct states): at most once, nothing lost at quiescence, failed upgrade keeps polling, both sides agree, every heartbeat sent is answered; three deviations (no re-send, in-flight poll dropped, re-send of MESSAGE packets only) must violate. Real sessions carry numbered text/binary traffic both ways across real upgrades, with bursts released exactly while the server or the client stands before its swap (gates), with refused and stalled candidates, and on settled transports; hook records (send under the read lock with the transport used, receive, swap with the re-sent packets) are validated by EioSessionTrace.tla: every reception consumes exactly one pending send, nothing pending at quiescence, no close, final transports as expected.",
+    "text": "TLC checks EioSession.tla (poll queue, pending and in-flight polls, candidate probe, both swaps under their write locks, asynchronous NOOPs, re-send of queued packets; heartbeat PINGs and PONGs travelling in the same streams; 2-3 messages and 1-2 heartbeats each way, one candidate failure, thorough 3/4 messages and 3 heartbeats = 4.0 M distinct states): at most once, nothing lost at quiescence, failed upgrade keeps polling, both sides agree, every heartbeat sent is answered; three deviations (no re-send, in-flight poll dropped, re-send of MESSAGE packets only) must violate. Real sessions carry numbered text/binary traffic both ways across real upgrades, with bursts released exactly while the server or the client stands before its swap (gates), with refused and stalled candidates, and on settled transports; hook records (send under the read lock with the transport used, receive, swap with the re-sent packets) are validated by EioSessionTrace.tla: every reception consumes exactly one pending send, nothing pending at quiescence, no close, final transports as expected. Further modes: six goroutines sending without pause across the client's swap, and Sends issued while the client is held between its swap and the UPGRADE packet (yield point under the write lock): they must wait and leave after UPGRADE.",
     "note": "Trusted: hooks under transportMu; loopback httptest server; WebTransport not exercised in the quick tier.",
     "technique": "TLA+/TLC model checking + trace validation of real upgrades with gated swap points",
     "design_ref": "DESIGN.md 4.7, 5 (C07)",
